@@ -143,7 +143,7 @@ Proof.
   destruct (is_valid_child t _ _) as [[]|y]; cbn [negb mbind node_of lift]; try discriminate.
   unfold pointing. rewrite Hp, Ht. cbn [oid_eqb orb negb]. rewrite Nat.eqb_refl. cbn [orb negb].
   unfold append_attached. cbn [mbind node_of lift].
-  destruct (admission_checks _ _) as [[]|y]; [|discriminate].
+  destruct (acceptance_checks _ _) as [[]|y]; [|discriminate].
   rewrite Hp, Ht. cbn [oid_eqb]. rewrite Nat.eqb_refl.
   unfold do_tappend, modify. cbn [fst snd].
   unfold seg_counter. cbn [mbind node_of].
